@@ -13,6 +13,8 @@ for d in sorted(glob.glob(os.path.join(V, "seeded", "*"))):
         if mm:
             by.append(f"{mm.group(1)}{'✓' if int(mm.group(2)) else '✗'}")
     how = m.get("caught_how", "")
+    if m.get("also_caught_by"):
+        how = (how + "; " if how else "") + "caught by another property's check: " + ", ".join(m["also_caught_by"])
     rows.append((name, m.get("summary", "").replace("|", "/")[:150], m.get("needs", "").replace("|", "/")[:140],
                  ("caught" if m.get("detected") else "**missed**") + (" (" + ", ".join(by) + ")" if by else "") + (": " + how if how else "")))
 n = len(rows); c = sum(1 for r in rows if r[3].startswith("caught"))
